@@ -19,6 +19,7 @@ import (
 
 	erpc "github.com/henrylee2cn/erpc/v6"
 	"github.com/henrylee2cn/erpc/v6/codec"
+	"github.com/henrylee2cn/erpc/v6/plugin/heartbeat"
 	pbmsg "github.com/henrylee2cn/erpc/v6/proto/pbproto/pb"
 
 	"verifharness/bed"
@@ -58,6 +59,7 @@ type Config struct {
 	TCP   bool     `json:"loopback_tcp"`
 	Ages  bool     `json:"session_and_context_age_set"`
 	Seq   string   `json:"sequence_counter_start"` // "", "wrap" (just below 2^31-1) or "zero" (just below 0)
+	Beat  string   `json:"heartbeat"`              // "", "call" or "push": heartbeat ping (3 s) / pong plugins; the traffic pauses ~6.5 s halfway so that pings travel between user messages
 }
 
 func kindsFor(p protos.P) []string {
@@ -120,7 +122,13 @@ func configs(tierName string, r *core.Rand) []Config {
 			c.N = ops / 2
 		}
 		c.TCP = i%5 == 4
-		c.Ages = i%4 == 3                         // generous session / context ages: the deadline code paths run, no deadline can expire
+		c.Ages = i%4 == 3 // generous session / context ages: the deadline code paths run, no deadline can expire
+		if !*lean && i%16 == 5 {
+			c.Beat = []string{"call", "push"}[(i/16)%2] // one configuration in sixteen (4 in the quick tier), ~7 s each
+			if !p.Push {
+				c.Beat = "call"
+			}
+		}
 		c.Seq = []string{"", "wrap", "zero"}[i%3] // the 32-bit sequence counter starts just below its wrap / just below zero
 		if *lean {
 			c.N = c.N/2 + 1
@@ -143,10 +151,10 @@ type caseState struct {
 	viols []violation
 	nviol int64
 
-	callsOK, callsFailed, pushesSent, pushesOK, rawPushes, acceptAsked, bare, emptyReplies int64
-	failSamples                                                                            []string
-	pushSeen                                                                               sync.Map
-	pushRecv                                                                               int64
+	callsOK, callsFailed, pushesSent, pushesOK, rawPushes, acceptAsked, bare, emptyReplies, idleTicks, beats int64
+	failSamples                                                                                              []string
+	pushSeen                                                                                                 sync.Map
+	pushRecv                                                                                                 int64
 }
 
 func (cs *caseState) report(symptom, kind, detail string) {
@@ -301,6 +309,23 @@ func (cs *caseState) checkReply(kind, t string, cmd erpc.CallCmd, arg interface{
 	}
 }
 
+// beatCounter counts the heartbeat pings a peer receives.
+type beatCounter struct{ cs *caseState }
+
+func (b *beatCounter) Name() string { return "harness-beat-counter" }
+func (b *beatCounter) PostReadCallHeader(ctx erpc.ReadCtx) *erpc.Status {
+	if ctx.ServiceMethod() == "/heartbeat" {
+		atomic.AddInt64(&b.cs.beats, 1)
+	}
+	return nil
+}
+func (b *beatCounter) PostReadPushHeader(ctx erpc.ReadCtx) *erpc.Status {
+	if ctx.ServiceMethod() == "/heartbeat" {
+		atomic.AddInt64(&b.cs.beats, 1)
+	}
+	return nil
+}
+
 func kindOfRoute(route string) string {
 	i := strings.LastIndexAny(route, "/_")
 	return route[i+1:]
@@ -359,12 +384,17 @@ func runCase(id string, cfg Config, r *core.Rand) {
 			acceptor.lis.Close()
 		}
 	}()
-	pa := erpc.NewPeer(pacfg)
+	var paPlugins, pbPlugins []erpc.Plugin
+	if cfg.Beat != "" {
+		paPlugins = append(paPlugins, heartbeat.NewPing(3, cfg.Beat == "call"))
+		pbPlugins = append(pbPlugins, heartbeat.NewPong(), &beatCounter{cs: cs})
+	}
+	pa := erpc.NewPeer(pacfg, paPlugins...)
 	pbcfg := erpc.PeerConfig{PrintDetail: cfg.Log != "OFF", CountTime: cfg.Log != "OFF"}
 	if cfg.Ages {
 		pbcfg.DefaultSessionAge, pbcfg.DefaultContextAge = 10*time.Minute, 10*time.Minute
 	}
-	pb := erpc.NewPeer(pbcfg)
+	pb := erpc.NewPeer(pbcfg, pbPlugins...)
 	tok.Register(pa)
 	tok.Register(pb)
 	var links []*bed.Link
@@ -441,6 +471,15 @@ func runCase(id string, cfg Config, r *core.Rand) {
 			return cfg.Kinds[gr.Intn(len(cfg.Kinds))], fmt.Sprintf("%s.%s%d.%d.%d", nonce, side, si, gi, ctr)
 		}
 		for op := 0; op < cfg.N; op++ {
+			if cfg.Beat != "" && op == cfg.N/2 {
+				// every traffic goroutine pauses here: the sessions fall idle and the heartbeat pings travel
+				// (the ping loop wakes every 3 s and pings sessions idle for 3 s: an idle window of 6 s always sees one;
+				// the goroutines resume at different times, so user messages and pings also overlap)
+				for i, n := 0, 58+gr.Intn(12); i < n; i++ {
+					time.Sleep(100 * time.Millisecond)
+					atomic.AddInt64(&cs.idleTicks, 1)
+				}
+			}
 			switch x := gr.Intn(10); {
 			case x < 5: // Call
 				kind, t := next()
@@ -535,7 +574,7 @@ func runCase(id string, cfg Config, r *core.Rand) {
 		}
 	}
 	stalled := waitOrStall(&wg, func() int64 {
-		return atomic.LoadInt64(&cs.callsOK) + atomic.LoadInt64(&cs.callsFailed) + atomic.LoadInt64(&cs.pushesSent) + atomic.LoadInt64(&mon.Handled) + atomic.LoadInt64(&mon.Pushed)
+		return atomic.LoadInt64(&cs.callsOK) + atomic.LoadInt64(&cs.callsFailed) + atomic.LoadInt64(&cs.pushesSent) + atomic.LoadInt64(&mon.Handled) + atomic.LoadInt64(&mon.Pushed) + atomic.LoadInt64(&cs.idleTicks)
 	}, links)
 	atomic.StoreInt32(&soupStop, 1)
 	soupWg.Wait()
@@ -561,13 +600,14 @@ func runCase(id string, cfg Config, r *core.Rand) {
 	core.Add("replies_in_an_accepted_codec_checked", cs.acceptAsked)
 	core.Add("ok_calls_without_any_metadata", cs.bare)
 	core.Add("ok_calls_answered_with_the_empty_value", cs.emptyReplies)
+	core.Add("heartbeat_pings_received_between_user_messages", atomic.LoadInt64(&cs.beats))
 	core.Add("pushes_received", atomic.LoadInt64(&cs.pushRecv))
 	core.Add("handler_invocations", mon.Handled)
 	core.Add("ctx_recycles_observed", mon.Recycles)
 	core.Add("gate_hits", hits)
 	core.Add("evaluations", cs.callsOK+cs.callsFailed+cs.pushesSent)
 	core.Max("max_handlers_in_flight", mon.MaxFlight)
-	sig := fmt.Sprintf("%s/%s/pipe=%s/S%dG%d/%s/log=%s/delay=%d/tcp=%v", cfg.Proto, strings.Join(cfg.Kinds, "+"), cfg.Pipe, cfg.S, cfg.G, cfg.Chunk, cfg.Log, cfg.Delay, cfg.TCP && p.Stream) + fmt.Sprintf("/ages=%v/seq=%s", cfg.Ages, cfg.Seq)
+	sig := fmt.Sprintf("%s/%s/pipe=%s/S%dG%d/%s/log=%s/delay=%d/tcp=%v", cfg.Proto, strings.Join(cfg.Kinds, "+"), cfg.Pipe, cfg.S, cfg.G, cfg.Chunk, cfg.Log, cfg.Delay, cfg.TCP && p.Stream) + fmt.Sprintf("/ages=%v/seq=%s/beat=%s", cfg.Ages, cfg.Seq, cfg.Beat)
 	nontrivial := mon.MaxFlight >= 2 && (mon.Recycles >= 1 || *lean) && cs.callsOK > 0
 	if cfg.S == 1 && cfg.G == 1 {
 		nontrivial = cs.callsOK > 0 && (mon.Recycles >= 1 || *lean)
